@@ -745,6 +745,13 @@ CONSTS = [
         "NICE_COMPONENT_STATE_CONNECTING", "NICE_COMPONENT_STATE_CONNECTED",
         "NICE_COMPONENT_STATE_READY", "NICE_COMPONENT_STATE_FAILED", "NICE_COMPONENT_STATE_LAST",
     ]),
+    ("agent/pseudotcp.h", [
+        "PSEUDO_TCP_LISTEN", "PSEUDO_TCP_SYN_SENT", "PSEUDO_TCP_SYN_RECEIVED", "PSEUDO_TCP_ESTABLISHED",
+        "PSEUDO_TCP_CLOSED", "PSEUDO_TCP_FIN_WAIT_1", "PSEUDO_TCP_FIN_WAIT_2", "PSEUDO_TCP_CLOSING",
+        "PSEUDO_TCP_TIME_WAIT", "PSEUDO_TCP_CLOSE_WAIT", "PSEUDO_TCP_LAST_ACK",
+        "WR_SUCCESS", "WR_TOO_LARGE", "WR_FAIL",
+        "PSEUDO_TCP_SHUTDOWN_RD", "PSEUDO_TCP_SHUTDOWN_WR", "PSEUDO_TCP_SHUTDOWN_RDWR",
+    ]),
 ]
 
 
@@ -752,6 +759,19 @@ CONSTS = [
 CDEFS = [
     ("agent/agent.c", ["MAX_TCP_MTU", "TCP_HEADER_SIZE"]),
     ("agent/component.c", ["MAX_BUFFER_SIZE"]),
+    # pseudo-TCP (order matters: PACKET_OVERHEAD uses the four header sizes)
+    ("agent/pseudotcp.c", ["DEF_MTU", "MAX_PACKET", "MIN_PACKET", "IP_HEADER_SIZE", "UDP_HEADER_SIZE",
+                           "JINGLE_HEADER_SIZE", "HEADER_SIZE", "PACKET_OVERHEAD", "MIN_RTO", "DEF_RTO",
+                           "MAX_RTO", "DEFAULT_ACK_DELAY", "DEFAULT_NO_DELAY", "DEFAULT_RCV_BUF_SIZE",
+                           "DEFAULT_SND_BUF_SIZE", "CTL_CONNECT", "TCP_MSL", "DEFAULT_TIMEOUT",
+                           "CLOSED_TIMEOUT", "TIME_WAIT_TIMEOUT"]),
+]
+
+# `typedef enum { ... } Name;` blocks that live in .c files: copied into the stub, members evaluated there
+CENUMS = [
+    ("agent/pseudotcp.c", "TcpOption", ["TCP_OPT_EOL", "TCP_OPT_NOOP", "TCP_OPT_MSS", "TCP_OPT_WND_SCALE",
+                                        "TCP_OPT_FIN_ACK"]),
+    ("agent/pseudotcp.c", "TcpFlags", ["FLAG_NONE", "FLAG_FIN", "FLAG_CTL", "FLAG_RST"]),
 ]
 
 
@@ -760,11 +780,18 @@ def cdef_lines():
     for file, ns in CDEFS:
         txt = open(os.path.join(REPO, file)).read()
         for n in dict.fromkeys(ns):
-            m = re.search(r"^#\s*define\s+" + n + r"\b(.*(?:\\\n.*)*)$", txt, re.M)
+            m = re.search(r"^#\s*define\s+" + n + r"\b((?:.*\\\n)*.*)$", txt, re.M)
             if not m:
                 raise Unsupported(f"#define {n} not found in {file}")
             out.append(f"#define {n} {m.group(1)}")
             names.append(n)
+    for file, tname, ns in CENUMS:
+        txt = open(os.path.join(REPO, file)).read()
+        m = re.search(r"typedef\s+enum\s*\{[^}]*\}\s*" + tname + r"\s*;", txt)
+        if not m:
+            raise Unsupported(f"typedef enum {tname} not found in {file}")
+        out.append(m.group(0))
+        names += ns
     return out, names
 
 
@@ -812,6 +839,10 @@ TABLES = [
     ("agent/pseudotcp.c", "PACKET_MAXIMUMS", "UInt32"),
 ]
 
+import extract_stun  # STUN message layer additions (tools/extract_stun.py)
+CONSTS += extract_stun.CONSTS
+TABLES += extract_stun.TABLES
+
 
 def eval_table(file, name):
     with tempfile.TemporaryDirectory(dir=BUILD) as td:
@@ -851,6 +882,31 @@ def transitions():
         r = subprocess.run(["clang-14", "-w", "-o", exe, c] + cflags(), capture_output=True, text=True)
         if r.returncode != 0:
             raise Unsupported("transition stub does not compile: " + r.stderr[-800:])
+        out = subprocess.check_output([exe], text=True)
+    return [tuple(int(x) for x in l.split()) for l in out.splitlines()]
+
+
+def ptcp_transitions():
+    """the whitelist asserted in pseudotcp.c's set_state, evaluated on all (old,new) state pairs"""
+    txt = open(os.path.join(REPO, "agent/pseudotcp.c")).read()
+    m = re.search(r"#define TRANSITION\(.*?#undef TRANSITION", txt, re.S)
+    if not m:
+        raise Unsupported("TRANSITION whitelist not found in pseudotcp.c")
+    body = m.group(0)
+    if body.count("g_assert") != 1:
+        raise Unsupported("pseudotcp.c TRANSITION block does not contain exactly one g_assert")
+    body = body.replace("g_assert", "return")
+    src = ('#include <stdio.h>\n#include "config.h"\n#include "agent/pseudotcp.h"\n'
+           "static int allowed (PseudoTcpState old_state, PseudoTcpState new_state) {\n" + body +
+           "\n}\nint main(void){int o,n;for(o=0;o<=PSEUDO_TCP_LAST_ACK;o++)for(n=0;n<=PSEUDO_TCP_LAST_ACK;n++)"
+           'if(o!=n && allowed(o,n)) printf("%d %d\\n",o,n);return 0;}\n')
+    with tempfile.TemporaryDirectory(dir=BUILD) as td:
+        c = os.path.join(td, "ptr.c")
+        open(c, "w").write(src)
+        exe = os.path.join(td, "ptr")
+        r = subprocess.run(["clang-14", "-w", "-o", exe, c] + cflags(), capture_output=True, text=True)
+        if r.returncode != 0:
+            raise Unsupported("pseudotcp transition stub does not compile: " + r.stderr[-800:])
         out = subprocess.check_output([exe], text=True)
     return [tuple(int(x) for x in l.split()) for l in out.splitlines()]
 
@@ -1009,6 +1065,18 @@ def main():
             report["tables"]["documentedEdges"] = len(ed)
         except (Unsupported, KeyError) as e:
             report["errors"].append("transitions: %s" % e)
+        try:
+            ptr = ptcp_transitions()
+            f.write("/-- (old,new) PseudoTcpState pairs allowed by pseudotcp.c set_state -/\n")
+            f.write("def ptcpTransitions : List (Nat × Nat) := [\n  " +
+                    ", ".join(f"({a}, {b})" for a, b in ptr) + "]\n\n")
+            report["tables"]["ptcpTransitions"] = len(ptr)
+        except Unsupported as e:
+            report["errors"].append("ptcp transitions: %s" % e)
+        try:
+            extract_stun.write_tables(f, report, sys.modules[__name__])
+        except Unsupported as e:
+            report["errors"].append("stun tables: %s" % e)
         f.write("end Nice.Gen\n")
     json.dump(report, open(os.path.join(BUILD, "extract_report.json"), "w"), indent=1)
     if report["errors"]:
